@@ -112,6 +112,8 @@ def gen_config(rng, tier, opts):
                                       {"consistency": True, "mse_of_estimators": False, "mse_of_empi_dists": True, "physicality_violation": True}]),
         "is_computation_time_required": rng.random() < 0.7,
     }
+    if rng.random() < 0.12:
+        cfg["parent_atol"] = rng.choice([1e-6, 1e-6, 1e-9, 1e-4])  # the caller changed quara's global tolerance before the run
     if not cfg["is_computation_time_required"]:
         # the MSE-of-estimators check reads computation times; without them only the other checks are requested
         cfg["exec_sim_check"] = {"consistency": rng.random() < 0.5, "mse_of_estimators": False, "mse_of_empi_dists": rng.random() < 0.5, "physicality_violation": True}
